@@ -4,8 +4,8 @@ package term
 
 import (
 	"fmt"
-	"os"
 	"math/bits"
+	"os"
 )
 
 type Op uint8
